@@ -35,6 +35,7 @@ func TestVerifC16Concurrent(t *testing.T) {
 
 	stores := c16NewStores(t, false)
 	maxOps := vstats.EnvInt("VERIF_C16_CONC_OPS", 16)
+	maxReads := vstats.EnvInt("VERIF_C16_READS", 400)
 
 	rapid.Check(t, func(t *rapid.T) {
 		for b, db := range stores.both {
@@ -114,7 +115,7 @@ func TestVerifC16Concurrent(t *testing.T) {
 			rwg.Add(1)
 			go func(r int) {
 				defer rwg.Done()
-				for i := 0; i < 400; i++ {
+				for i := 0; i < maxReads; i++ {
 					if done.Load() && i >= len(readPlans[r]) {
 						return
 					}
@@ -197,9 +198,11 @@ func TestVerifC16Concurrent(t *testing.T) {
 				merged.known[k] += n
 			}
 			merged.softDiv = append(merged.softDiv, c.softDiv...)
-			for _, h := range c.hist {
+			for i, h := range c.hist {
 				merged.hist = append(merged.hist,
 					fmt.Sprintf("w%d: %s", w, h))
+				merged.fp = append(merged.fp,
+					fmt.Sprintf("w%d: %s", w, c.fp[i]))
 			}
 		}
 		g := &c16Gen{excluded: excluded, outside: outside}
